@@ -169,3 +169,23 @@ def run(ctx):
         r6.fail("reentrant-lock:%s@%s" % (fld, fn.replace("::{closure#0}", "").split("::")[-1]), "%s takes `%s.%s()` while its guard from `%s.%s()` is still alive: the thread waits for itself (in try_unban: once every replica of a shard is banned - "
                 "which plain saturation produces - the next checkout hangs, and with it everybody who touches the ban list)" % (fn.split("::")[-1], fld, kinds[1], fld, kinds[0]), w2)
     r6.check(True, "guards-scanned", "%d named lock guards scanned, %d re-acquisitions under a live guard" % (nguards, len(found)), "")
+
+    # ---------------- R7 a connect attempt cannot keep its slot for ever (D56)
+    r7 = ctx.rule("C04-R7", "`after any history the full pool_size capacity is available again`: bb8 counts a connect attempt against max_size until the attempt ends, and bounds only the *wait* of the caller - "
+                  "so the attempt itself (ServerPool::connect: TCP connect, startup packet, authentication, up to ReadyForQuery) runs under a timeout taken from the configuration", floor=1)
+    cb7 = ctx.body("<pgcat::pool::ServerPool as bb8::api::ManageConnection>::connect::{closure#0}", r7)
+    if cb7:
+        st7 = cb7.calls("pgcat::server::Server::startup")
+        to7 = cb7.calls("re:^tokio::time::timeout::timeout$")
+        if not st7:
+            r7.missing("Server::startup in ServerPool::connect")
+        else:
+            wrapped = [t for t in to7 if any(o.kind == "call" and o.call.block == st7[0].block for o in origins(cb7, t.args[1], taint=True))]
+            dur_f = set()
+            for t in wrapped:
+                for o in origins(cb7, t.args[0], taint=True):
+                    if o.kind in ("place", "param"):
+                        dur_f |= {p_[1:] for p_ in o.proj if p_.startswith(".") and not p_[1:].isdigit()}
+            r7.check(bool(wrapped) and "connect_timeout" in dur_f, "startup-under-connect-timeout", "Server::startup is the future given to timeout(connect_timeout)",
+                     "Server::startup has no deadline: a server that accepts the TCP connection and then says nothing keeps the attempt - and its slot of the pool - for ever; "
+                     "with pool_size = 1 every later checkout times out, also after the server has recovered", st7[0].where())
